@@ -31,6 +31,11 @@ def replay_jobs(scratch, jobs, race=False):
     jf = os.path.join(scratch.dir, 'jobs.jsonl')
     with open(jf, 'w') as f:
         for j in jobs:
+            u = j.get('u')
+            if isinstance(u, dict):   # TLC prints a function with an empty domain as []
+                for k in ('txins', 'txouts'):
+                    if u.get(k) == []:
+                        u[k] = {}
             f.write(json.dumps(j) + '\n')
 
     def args(a, b, sdir):
@@ -391,6 +396,23 @@ PROPS['C08'] = plan_check(PLAN_C08)
 PLAN_C06['gens'][0]['quick'].append(SIM(60, 16, **dict(LIFE, Crashes='TRUE')))
 PLAN_C06['gens'][0]['thorough'].append(SIM(1500, 18, **dict(LIFE, Crashes='TRUE')))
 KINDS['C06'] += ['wallet-status']
+
+
+PLAN_C12 = dict(
+    mc=dict(quick=[('MC_Crash.cfg', 'MC_Sync.tla', {'MaxBlocks': '5'})],
+            thorough=[('MC_Crash.cfg', 'MC_Sync.tla', {'MaxBlocks': '6'})]),
+    gens=[gen('Gen_Pay.cfg', 'MC_Pay.tla',
+              quick=[SIM(160, 14), SIM(80, 14, **CR)],
+              thorough=[EXH(6, 3000), SIM(2500, 16), SIM(1500, 16, **CR)]),
+          gen('Gen_Imp.cfg', 'MC_Imp.tla',
+              quick=[SIM(80, 14)],
+              thorough=[SIM(1500, 16)]),
+          gen('Gen_Stake.cfg', 'MC_Stake.tla', universe_extra=STAKE_X,
+              quick=[SIM(80, 14)],
+              thorough=[SIM(1500, 16, **CR)])],
+    assume=['decides the clauses "listed from then on (also after restart)" and "used flag true exactly when the best chain contains a payment to it" on issued addresses of both classes; the gap-limit refusal and the restore guarantee are decided by spec/Gap.tla when present (see DESIGN.md)'],
+)
+PROPS['C12'] = plan_check(PLAN_C12)
 
 
 # ------------------------------------------------------------------ plug-in checks
